@@ -17,11 +17,11 @@ import (
 // ---------------------------------------------------------------------------
 // Selectors
 
-// NormalReturns selects the return instructions that can complete the function
+// HcNormalReturns selects the return instructions that can complete the function
 // normally: not the synthetic recover block, and not a return whose error
 // result is a freshly boxed concrete value (`return ConnectionError(x)`),
 // which is certainly a non-nil error.
-func NormalReturns() Sel {
+func HcNormalReturns() Sel {
 	return Sel{"normal return", func(p *Prog, fn *ssa.Function) []ssa.Instruction {
 		res := fn.Signature.Results()
 		ei := -1
@@ -47,28 +47,28 @@ func NormalReturns() Sel {
 	}}
 }
 
-// CFGEdge is a branch edge from the block ending in an If to one successor.
-type CFGEdge struct{ From, To *ssa.BasicBlock }
+// HcCFGEdge is a branch edge from the block ending in an If to one successor.
+type HcCFGEdge struct{ From, To *ssa.BasicBlock }
 
-// EdgeSel selects branch edges of a function ("the edge on which cond holds").
-type EdgeSel struct {
+// HcEdgeSel selects branch edges of a function ("the edge on which cond holds").
+type HcEdgeSel struct {
 	Name string
-	F    func(p *Prog, fn *ssa.Function) []CFGEdge
+	F    func(p *Prog, fn *ssa.Function) []HcCFGEdge
 }
 
-// NoEdges selects nothing.
-func NoEdges() EdgeSel {
-	return EdgeSel{"nothing", func(*Prog, *ssa.Function) []CFGEdge { return nil }}
+// HcNoEdges selects nothing.
+func HcNoEdges() HcEdgeSel {
+	return HcEdgeSel{"nothing", func(*Prog, *ssa.Function) []HcCFGEdge { return nil }}
 }
 
-// UnionEdges joins edge selectors.
-func UnionEdges(sels ...EdgeSel) EdgeSel {
+// HcUnionEdges joins edge selectors.
+func HcUnionEdges(sels ...HcEdgeSel) HcEdgeSel {
 	var names []string
 	for _, s := range sels {
 		names = append(names, s.Name)
 	}
-	return EdgeSel{strings.Join(names, " | "), func(p *Prog, fn *ssa.Function) []CFGEdge {
-		var out []CFGEdge
+	return HcEdgeSel{strings.Join(names, " | "), func(p *Prog, fn *ssa.Function) []HcCFGEdge {
+		var out []HcCFGEdge
 		for _, s := range sels {
 			out = append(out, s.F(p, fn)...)
 		}
@@ -76,14 +76,14 @@ func UnionEdges(sels ...EdgeSel) EdgeSel {
 	}}
 }
 
-// EdgeWhere selects the branch edges on which the atom holds.
-func EdgeWhere(spec string) EdgeSel {
-	return EdgeSel{"branch " + stripSpaces(spec), func(p *Prog, fn *ssa.Function) []CFGEdge {
+// HcEdgeWhere selects the branch edges on which the atom holds.
+func HcEdgeWhere(spec string) HcEdgeSel {
+	return HcEdgeSel{"branch " + stripSpaces(spec), func(p *Prog, fn *ssa.Function) []HcCFGEdge {
 		a, err := p.ParseAtom(spec)
 		if err != nil {
 			return nil
 		}
-		var out []CFGEdge
+		var out []HcCFGEdge
 		eachInstr(fn, func(in ssa.Instruction) {
 			ifi, ok := in.(*ssa.If)
 			if !ok {
@@ -92,17 +92,17 @@ func EdgeWhere(spec string) EdgeSel {
 			ca := CondAtom(ifi.Cond)
 			b := ifi.Block()
 			if SameAtom(ca, a) {
-				out = append(out, CFGEdge{b, b.Succs[0]})
+				out = append(out, HcCFGEdge{b, b.Succs[0]})
 			} else if SameAtom(ca.Negate(), a) {
-				out = append(out, CFGEdge{b, b.Succs[1]})
+				out = append(out, HcCFGEdge{b, b.Succs[1]})
 			}
 		})
 		return out
 	}}
 }
 
-// reachCut is canReach that additionally never follows a cut edge.
-func reachCut(start ipos, targets, barriers map[ssa.Instruction]bool, cut map[CFGEdge]bool) (ssa.Instruction, bool) {
+// hcReachCut is canReach that additionally never follows a cut edge.
+func hcReachCut(start ipos, targets, barriers map[ssa.Instruction]bool, cut map[HcCFGEdge]bool) (ssa.Instruction, bool) {
 	var hit ssa.Instruction
 	seen := map[*ssa.BasicBlock]bool{}
 	var run func(b *ssa.BasicBlock, i int)
@@ -119,7 +119,7 @@ func reachCut(start ipos, targets, barriers map[ssa.Instruction]bool, cut map[CF
 		}
 		for k, s := range b.Succs {
 			// a two-way branch to the same block twice is not an edge we can cut
-			if cut[CFGEdge{b, s}] && !(len(b.Succs) == 2 && b.Succs[0] == b.Succs[1]) {
+			if cut[HcCFGEdge{b, s}] && !(len(b.Succs) == 2 && b.Succs[0] == b.Succs[1]) {
 				_ = k
 				continue
 			}
@@ -133,7 +133,7 @@ func reachCut(start ipos, targets, barriers map[ssa.Instruction]bool, cut map[CF
 	return hit, hit != nil
 }
 
-func stripNot(v ssa.Value) (ssa.Value, bool) {
+func hcStripNot(v ssa.Value) (ssa.Value, bool) {
 	neg := false
 	for {
 		u, ok := v.(*ssa.UnOp)
@@ -145,37 +145,37 @@ func stripNot(v ssa.Value) (ssa.Value, bool) {
 	}
 }
 
-// FailEdgeOf selects the first instruction of every branch successor on which
+// HcFailEdgeOf selects the first instruction of every branch successor on which
 // the boolean result of a selected call is false.
-func FailEdgeOf(calls Sel) EdgeSel {
-	return boolEdgeOf(calls, false)
+func HcFailEdgeOf(calls Sel) HcEdgeSel {
+	return hcBoolEdgeOf(calls, false)
 }
 
-// SuccessEdgeOf selects the first instruction of every branch successor on
+// HcSuccessEdgeOf selects the first instruction of every branch successor on
 // which the boolean result of a selected call is true.
-func SuccessEdgeOf(calls Sel) EdgeSel {
-	return boolEdgeOf(calls, true)
+func HcSuccessEdgeOf(calls Sel) HcEdgeSel {
+	return hcBoolEdgeOf(calls, true)
 }
 
-func boolEdgeOf(calls Sel, want bool) EdgeSel {
+func hcBoolEdgeOf(calls Sel, want bool) HcEdgeSel {
 	name := "false-edge of "
 	if want {
 		name = "true-edge of "
 	}
-	return EdgeSel{name + calls.Name, func(p *Prog, fn *ssa.Function) []CFGEdge {
+	return HcEdgeSel{name + calls.Name, func(p *Prog, fn *ssa.Function) []HcCFGEdge {
 		set := map[ssa.Value]bool{}
 		for _, in := range calls.F(p, fn) {
 			if v, ok := in.(ssa.Value); ok {
 				set[v] = true
 			}
 		}
-		var out []CFGEdge
+		var out []HcCFGEdge
 		eachInstr(fn, func(in ssa.Instruction) {
 			ifi, ok := in.(*ssa.If)
 			if !ok {
 				return
 			}
-			v, neg := stripNot(ifi.Cond)
+			v, neg := hcStripNot(ifi.Cond)
 			if !set[v] {
 				return
 			}
@@ -184,15 +184,15 @@ func boolEdgeOf(calls Sel, want bool) EdgeSel {
 			if neg == want {
 				idx = 1
 			}
-			out = append(out, CFGEdge{ifi.Block(), ifi.Block().Succs[idx]})
+			out = append(out, HcCFGEdge{ifi.Block(), ifi.Block().Succs[idx]})
 		})
 		return out
 	}}
 }
 
-// unwrapValue strips integer conversions and calls of the listed pure
+// hcUnwrapValue strips integer conversions and calls of the listed pure
 // wrappers (by bare callee name) from v.
-func unwrapValue(v ssa.Value, wrappers ...string) ssa.Value {
+func hcUnwrapValue(v ssa.Value, wrappers ...string) ssa.Value {
 	for i := 0; i < 8; i++ {
 		switch x := v.(type) {
 		case *ssa.Convert:
@@ -219,35 +219,35 @@ func unwrapValue(v ssa.Value, wrappers ...string) ssa.Value {
 	return v
 }
 
-// ZeroEdgeOf selects the first instruction of every branch successor on which
+// HcZeroEdgeOf selects the first instruction of every branch successor on which
 // a value satisfying pred is known to be == 0 or <= 0 (tests `v != 0`,
 // `v == 0`, `v > 0`, `v <= 0`, `v >= 1`, `v < 1` in either operand order).
-func ZeroEdgeOf(desc string, pred func(ssa.Value) bool) EdgeSel {
-	return EdgeSel{"zero-edge of " + desc, func(p *Prog, fn *ssa.Function) []CFGEdge {
-		var out []CFGEdge
+func HcZeroEdgeOf(desc string, pred func(ssa.Value) bool) HcEdgeSel {
+	return HcEdgeSel{"zero-edge of " + desc, func(p *Prog, fn *ssa.Function) []HcCFGEdge {
+		var out []HcCFGEdge
 		eachInstr(fn, func(in ssa.Instruction) {
 			ifi, ok := in.(*ssa.If)
 			if !ok {
 				return
 			}
-			cond, neg := stripNot(ifi.Cond)
+			cond, neg := hcStripNot(ifi.Cond)
 			bo, ok := cond.(*ssa.BinOp)
 			if !ok {
 				return
 			}
 			var subj ssa.Value
-			if isZeroConst(bo.Y) || isOneConst(bo.Y) {
+			if hcIsZeroConst(bo.Y) || hcIsOneConst(bo.Y) {
 				subj = bo.X
-			} else if isZeroConst(bo.X) || isOneConst(bo.X) {
+			} else if hcIsZeroConst(bo.X) || hcIsOneConst(bo.X) {
 				subj = bo.Y
 			} else {
 				return
 			}
-			if !pred(unwrapValue(subj)) {
+			if !pred(hcUnwrapValue(subj)) {
 				return
 			}
 			a := CondAtom(cond)
-			t := Term(unwrapValue(subj))
+			t := Term(hcUnwrapValue(subj))
 			// which polarity says subj <= 0 ?
 			isZero := func(a Atom) bool {
 				if a.Kind == EQ && len(a.L.Coef) == 1 && a.L.K == 0 && a.L.Coef[t] != 0 {
@@ -270,35 +270,35 @@ func ZeroEdgeOf(desc string, pred func(ssa.Value) bool) EdgeSel {
 			if neg {
 				idx = 1 - idx
 			}
-			out = append(out, CFGEdge{ifi.Block(), ifi.Block().Succs[idx]})
+			out = append(out, HcCFGEdge{ifi.Block(), ifi.Block().Succs[idx]})
 		})
 		return out
 	}}
 }
 
-func isZeroConst(v ssa.Value) bool {
+func hcIsZeroConst(v ssa.Value) bool {
 	c, ok := v.(*ssa.Const)
 	return ok && (c.Value == nil || c.Value.ExactString() == "0")
 }
 
-func isOneConst(v ssa.Value) bool {
+func hcIsOneConst(v ssa.Value) bool {
 	c, ok := v.(*ssa.Const)
 	return ok && c.Value != nil && c.Value.ExactString() == "1"
 }
 
-// NonNilEdgeOf selects the first instruction of every branch successor on
+// HcNonNilEdgeOf selects the first instruction of every branch successor on
 // which a value satisfying pred (typically an error result) is known to be
 // non-nil: `v != nil` (true edge), `v == nil` (false edge), `v == X` with X a
 // non-nil operand such as io.EOF (true edge).
-func NonNilEdgeOf(desc string, pred func(ssa.Value) bool) EdgeSel {
-	return EdgeSel{"non-nil-edge of " + desc, func(p *Prog, fn *ssa.Function) []CFGEdge {
-		var out []CFGEdge
+func HcNonNilEdgeOf(desc string, pred func(ssa.Value) bool) HcEdgeSel {
+	return HcEdgeSel{"non-nil-edge of " + desc, func(p *Prog, fn *ssa.Function) []HcCFGEdge {
+		var out []HcCFGEdge
 		eachInstr(fn, func(in ssa.Instruction) {
 			ifi, ok := in.(*ssa.If)
 			if !ok {
 				return
 			}
-			cond, neg := stripNot(ifi.Cond)
+			cond, neg := hcStripNot(ifi.Cond)
 			bo, ok := cond.(*ssa.BinOp)
 			if !ok || bo.Op != token.EQL && bo.Op != token.NEQ {
 				return
@@ -331,7 +331,7 @@ func NonNilEdgeOf(desc string, pred func(ssa.Value) bool) EdgeSel {
 			if neg {
 				idx = 1 - idx
 			}
-			out = append(out, CFGEdge{ifi.Block(), ifi.Block().Succs[idx]})
+			out = append(out, HcCFGEdge{ifi.Block(), ifi.Block().Succs[idx]})
 		})
 		return out
 	}}
@@ -340,10 +340,10 @@ func NonNilEdgeOf(desc string, pred func(ssa.Value) bool) EdgeSel {
 // ---------------------------------------------------------------------------
 // Path rules
 
-// PassThroughUnless: from every `from` site every path to a NORMAL return
+// HcPassThroughUnless: from every `from` site every path to a NORMAL return
 // passes a `to` site, unless it leaves through an `excuse` site (typically an
 // edge selector: the failure edge of a test, the zero edge of a count).
-func (c *Ctx) PassThroughUnless(fnName string, from, to Sel, excuse EdgeSel) bool {
+func (c *Ctx) HcPassThroughUnless(fnName string, from, to Sel, excuse HcEdgeSel) bool {
 	rule := "pass-through"
 	construct := fmt.Sprintf("%s: after [%s] always [%s] unless [%s]", fnName, from.Name, to.Name, excuse.Name)
 	fn, ins := c.sites(rule, fnName, from)
@@ -356,11 +356,11 @@ func (c *Ctx) PassThroughUnless(fnName string, from, to Sel, excuse EdgeSel) boo
 		return false
 	}
 	barriers := instrSet(tos)
-	cut := map[CFGEdge]bool{}
+	cut := map[HcCFGEdge]bool{}
 	for _, e := range excuse.F(c.P, fn) {
 		cut[e] = true
 	}
-	rets := instrSet(NormalReturns().F(c.P, fn))
+	rets := instrSet(HcNormalReturns().F(c.P, fn))
 	for _, in := range ins {
 		if barriers[in] {
 			continue
@@ -369,7 +369,7 @@ func (c *Ctx) PassThroughUnless(fnName string, from, to Sel, excuse EdgeSel) boo
 			c.Fail(rule, construct, InstrPos(in), fmt.Sprintf("`%s` returns at once without [%s]", DescribeInstr(in), to.Name))
 			return false
 		}
-		if r, reach := reachCut(posOf(in), rets, barriers, cut); reach {
+		if r, reach := hcReachCut(posOf(in), rets, barriers, cut); reach {
 			c.Fail(rule, construct, InstrPos(in), fmt.Sprintf("from `%s` the return at %s is reachable without [%s]", DescribeInstr(in), c.P.Pos(InstrPos(r)), to.Name))
 			return false
 		}
@@ -378,10 +378,10 @@ func (c *Ctx) PassThroughUnless(fnName string, from, to Sel, excuse EdgeSel) boo
 	return true
 }
 
-// NoPathWithout: from every `from` site, no `to` site is reachable without
+// HcNoPathWithout: from every `from` site, no `to` site is reachable without
 // first passing a `via` site (e.g. after cond.Wait the window is re-read
 // before it is used).
-func (c *Ctx) NoPathWithout(fnName string, from, to, via Sel) bool {
+func (c *Ctx) HcNoPathWithout(fnName string, from, to, via Sel) bool {
 	rule := "no-path-without"
 	construct := fmt.Sprintf("%s: from [%s] to [%s] only via [%s]", fnName, from.Name, to.Name, via.Name)
 	fn, ins := c.sites(rule, fnName, from)
@@ -404,9 +404,9 @@ func (c *Ctx) NoPathWithout(fnName string, from, to, via Sel) bool {
 	return true
 }
 
-// FirstReached returns the `to` sites reachable from `from` without passing
+// HcFirstReached returns the `to` sites reachable from `from` without passing
 // another `to` site.
-func FirstReached(from ssa.Instruction, tos []ssa.Instruction) []ssa.Instruction {
+func HcFirstReached(from ssa.Instruction, tos []ssa.Instruction) []ssa.Instruction {
 	set := instrSet(tos)
 	var out []ssa.Instruction
 	seen := map[ssa.Instruction]bool{}
@@ -423,8 +423,8 @@ func FirstReached(from ssa.Instruction, tos []ssa.Instruction) []ssa.Instruction
 	return out
 }
 
-// Dominated reports whether instruction a executes before b on every path to b.
-func Dominated(a, b ssa.Instruction) bool {
+// HcDominated reports whether instruction a executes before b on every path to b.
+func HcDominated(a, b ssa.Instruction) bool {
 	pa, pb := posOf(a), posOf(b)
 	if pa.b == pb.b {
 		return pa.i < pb.i
@@ -435,14 +435,14 @@ func Dominated(a, b ssa.Instruction) bool {
 // ---------------------------------------------------------------------------
 // Reaching definitions of a call result kept in a local slot.
 
-// IsResultOf reports whether v is exactly the idx-th result of call: the
+// HcIsResultOf reports whether v is exactly the idx-th result of call: the
 // Extract itself (or the call when it has a single result), or a load from a
 // local slot for which the store of that result is the only definition that
 // can reach the load.
-func IsResultOf(v ssa.Value, call *ssa.Call, idx int) bool {
-	v = unwrapValue(v)
+func HcIsResultOf(v ssa.Value, call *ssa.Call, idx int) bool {
+	v = hcUnwrapValue(v)
 	isRes := func(x ssa.Value) bool {
-		x = unwrapValue(x)
+		x = hcUnwrapValue(x)
 		if e, ok := x.(*ssa.Extract); ok {
 			return e.Tuple == ssa.Value(call) && e.Index == idx
 		}
@@ -516,10 +516,10 @@ func IsResultOf(v ssa.Value, call *ssa.Call, idx int) bool {
 // φ-expanded linear forms: every value an integer expression can take,
 // expanding if/else merges (acyclic φ) and +/- over them.
 
-// LinSet returns the canonical strings of the linear forms v can evaluate to.
-func LinSet(v ssa.Value) []string {
+// HcLinSet returns the canonical strings of the linear forms v can evaluate to.
+func HcLinSet(v ssa.Value) []string {
 	r := &renderer{phis: map[*ssa.Phi]bool{}}
-	ls := r.linSet(v, 0, map[*ssa.Phi]bool{})
+	ls := r.hcLinSet(v, 0, map[*ssa.Phi]bool{})
 	set := map[string]bool{}
 	for _, l := range ls {
 		set[l.String()] = true
@@ -532,7 +532,7 @@ func LinSet(v ssa.Value) []string {
 	return out
 }
 
-func (r *renderer) linSet(v ssa.Value, d int, on map[*ssa.Phi]bool) []Lin {
+func (r *renderer) hcLinSet(v ssa.Value, d int, on map[*ssa.Phi]bool) []Lin {
 	if d < 10 {
 		switch x := v.(type) {
 		case *ssa.Phi:
@@ -542,7 +542,7 @@ func (r *renderer) linSet(v ssa.Value, d int, on map[*ssa.Phi]bool) []Lin {
 			on[x] = true
 			var out []Lin
 			for _, e := range x.Edges {
-				out = append(out, r.linSet(e, d+1, on)...)
+				out = append(out, r.hcLinSet(e, d+1, on)...)
 			}
 			delete(on, x)
 			if len(out) <= 64 {
@@ -550,17 +550,17 @@ func (r *renderer) linSet(v ssa.Value, d int, on map[*ssa.Phi]bool) []Lin {
 			}
 		case *ssa.Convert:
 			if isIntegral(x.Type()) && isIntegral(x.X.Type()) {
-				return r.linSet(x.X, d+1, on)
+				return r.hcLinSet(x.X, d+1, on)
 			}
 		case *ssa.ChangeType:
-			return r.linSet(x.X, d+1, on)
+			return r.hcLinSet(x.X, d+1, on)
 		case *ssa.BinOp:
 			if isIntegral(x.Type()) && (x.Op == token.ADD || x.Op == token.SUB) {
 				sign := int64(1)
 				if x.Op == token.SUB {
 					sign = -1
 				}
-				as, bs := r.linSet(x.X, d+1, on), r.linSet(x.Y, d+1, on)
+				as, bs := r.hcLinSet(x.X, d+1, on), r.hcLinSet(x.Y, d+1, on)
 				if len(as)*len(bs) <= 64 {
 					var out []Lin
 					for _, a := range as {
@@ -576,11 +576,11 @@ func (r *renderer) linSet(v ssa.Value, d int, on map[*ssa.Phi]bool) []Lin {
 	return []Lin{r.lin(v, 0)}
 }
 
-// LinOf is the canonical string of the linear form of v.
-func LinOf(v ssa.Value) string { return Linearize(v).String() }
+// HcLinOf is the canonical string of the linear form of v.
+func HcLinOf(v ssa.Value) string { return Linearize(v).String() }
 
-// LinSpec parses a linear expression written in spec syntax.
-func (p *Prog) LinSpec(s string) (string, error) {
+// HcLinSpec parses a linear expression written in spec syntax.
+func (p *Prog) HcLinSpec(s string) (string, error) {
 	l, err := p.parseLin(s)
 	if err != nil {
 		return "", err
@@ -591,8 +591,8 @@ func (p *Prog) LinSpec(s string) (string, error) {
 // ---------------------------------------------------------------------------
 // Min-clamp chains: structural upper bounds of a value.
 
-// edgeFacts returns the atoms that hold when control flows from pred to b.
-func edgeFacts(pred, b *ssa.BasicBlock) []Atom {
+// hcEdgeFacts returns the atoms that hold when control flows from pred to b.
+func hcEdgeFacts(pred, b *ssa.BasicBlock) []Atom {
 	var out []Atom
 	for _, f := range FactsAt(pred) {
 		out = append(out, f.Atom)
@@ -610,16 +610,16 @@ func edgeFacts(pred, b *ssa.BasicBlock) []Atom {
 	return out
 }
 
-// UpperBounds returns the terms T for which v <= T follows structurally from
+// HcUpperBounds returns the terms T for which v <= T follows structurally from
 // the if/else merges that compute v: v itself, and for a φ every T that bounds
 // each incoming value — because that value is bounded by T already, or because
 // the branch facts of the incoming edge say value <= T (or value <= X with X
 // bounded by T). Edges whose facts contradict an atom of assume are ignored.
-func UpperBounds(v ssa.Value, assume ...Atom) map[string]bool {
+func HcUpperBounds(v ssa.Value, assume ...Atom) map[string]bool {
 	known := map[string]map[string]bool{}
 	var ub func(v ssa.Value, d int) map[string]bool
 	ub = func(v ssa.Value, d int) map[string]bool {
-		v = unwrapValue(v)
+		v = hcUnwrapValue(v)
 		t := Term(v)
 		if k, ok := known[t]; ok {
 			return k
@@ -637,7 +637,7 @@ func UpperBounds(v ssa.Value, assume ...Atom) map[string]bool {
 		}
 		var edges []edge
 		for i, e := range ph.Edges {
-			fs := edgeFacts(ph.Block().Preds[i], ph.Block())
+			fs := hcEdgeFacts(ph.Block().Preds[i], ph.Block())
 			skip := false
 			for _, a := range assume {
 				for _, f := range fs {
@@ -649,7 +649,7 @@ func UpperBounds(v ssa.Value, assume ...Atom) map[string]bool {
 			if skip {
 				continue
 			}
-			edges = append(edges, edge{unwrapValue(e), fs, ub(e, d+1)})
+			edges = append(edges, edge{hcUnwrapValue(e), fs, ub(e, d+1)})
 		}
 		cands := map[string]bool{}
 		for _, e := range edges {
@@ -699,9 +699,9 @@ func UpperBounds(v ssa.Value, assume ...Atom) map[string]bool {
 	return ub(v, 0)
 }
 
-// ClampedBy: the value (described by desc, produced by get from the function)
+// HcClampedBy: the value (described by desc, produced by get from the function)
 // has each of the listed terms as a structural upper bound.
-func (c *Ctx) ClampedBy(fnName, desc string, get func(fn *ssa.Function) []ssa.Value, assume []string, bounds ...string) bool {
+func (c *Ctx) HcClampedBy(fnName, desc string, get func(fn *ssa.Function) []ssa.Value, assume []string, bounds ...string) bool {
 	rule := "min-clamp"
 	fn := c.MustFn(fnName)
 	if fn == nil {
@@ -730,7 +730,7 @@ func (c *Ctx) ClampedBy(fnName, desc string, get func(fn *ssa.Function) []ssa.Va
 		}
 		bad := ""
 		for _, v := range vals {
-			ubs := UpperBounds(v, as...)
+			ubs := HcUpperBounds(v, as...)
 			if !ubs[stripSpaces(b)] {
 				var ks []string
 				for k := range ubs {
@@ -753,9 +753,9 @@ func (c *Ctx) ClampedBy(fnName, desc string, get func(fn *ssa.Function) []ssa.Va
 // ---------------------------------------------------------------------------
 // Small accessors used by rule files.
 
-// RecvField names the struct field a method receiver argument points at:
+// HcRecvField names the struct field a method receiver argument points at:
 // for `cc.inflow.add(n)` it returns "http2.ClientConn.inflow".
-func RecvField(v ssa.Value) string {
+func HcRecvField(v ssa.Value) string {
 	fa, ok := v.(*ssa.FieldAddr)
 	if !ok {
 		return ""
@@ -767,8 +767,8 @@ func RecvField(v ssa.Value) string {
 	return Short(types.TypeString(t, nil)) + "." + fieldName(fa.X.Type(), fa.Field)
 }
 
-// CallArg returns argument i (receiver counts) of a call instruction, or nil.
-func CallArg(in ssa.Instruction, i int) ssa.Value {
+// HcCallArg returns argument i (receiver counts) of a call instruction, or nil.
+func HcCallArg(in ssa.Instruction, i int) ssa.Value {
 	ci, ok := in.(ssa.CallInstruction)
 	if !ok || i >= len(ci.Common().Args) {
 		return nil
@@ -776,14 +776,14 @@ func CallArg(in ssa.Instruction, i int) ssa.Value {
 	return ci.Common().Args[i]
 }
 
-// EachInstr visits every instruction of fn.
-func EachInstr(fn *ssa.Function, f func(ssa.Instruction)) { eachInstr(fn, f) }
+// HcEachInstr visits every instruction of fn.
+func HcEachInstr(fn *ssa.Function, f func(ssa.Instruction)) { eachInstr(fn, f) }
 
-// Unwrap strips integer conversions and the listed single-argument wrappers.
-func Unwrap(v ssa.Value, wrappers ...string) ssa.Value { return unwrapValue(v, wrappers...) }
+// HcUnwrap strips integer conversions and the listed single-argument wrappers.
+func HcUnwrap(v ssa.Value, wrappers ...string) ssa.Value { return hcUnwrapValue(v, wrappers...) }
 
-// Recvs selects channel receive operations whose channel renders as term.
-func Recvs(term string) Sel {
+// HcRecvs selects channel receive operations whose channel renders as term.
+func HcRecvs(term string) Sel {
 	return Sel{"receive " + term, func(p *Prog, fn *ssa.Function) []ssa.Instruction {
 		var out []ssa.Instruction
 		eachInstr(fn, func(in ssa.Instruction) {
@@ -795,9 +795,9 @@ func Recvs(term string) Sel {
 	}}
 }
 
-// MapUpdates selects map assignments m[k] = v whose map has the given type
+// HcMapUpdates selects map assignments m[k] = v whose map has the given type
 // string (short form, e.g. "map[uint32]*http2.clientStream").
-func MapUpdates(mapType string) Sel {
+func HcMapUpdates(mapType string) Sel {
 	return Sel{"map update " + mapType, func(p *Prog, fn *ssa.Function) []ssa.Instruction {
 		var out []ssa.Instruction
 		eachInstr(fn, func(in ssa.Instruction) {
@@ -809,9 +809,9 @@ func MapUpdates(mapType string) Sel {
 	}}
 }
 
-// FactsHold reports whether every spec atom is among the branch facts that
+// HcFactsHold reports whether every spec atom is among the branch facts that
 // dominate in (exact canonical match).
-func (c *Ctx) FactsHold(in ssa.Instruction, specs ...string) bool {
+func (c *Ctx) HcFactsHold(in ssa.Instruction, specs ...string) bool {
 	for _, s := range specs {
 		a, err := c.P.ParseAtom(s)
 		if err != nil || !holds(FactsAtInstr(in), a, true) {
@@ -821,11 +821,11 @@ func (c *Ctx) FactsHold(in ssa.Instruction, specs ...string) bool {
 	return true
 }
 
-// FactIs reports whether the branch facts dominating in include atom a.
-func FactIs(in ssa.Instruction, a Atom) bool { return holds(FactsAtInstr(in), a, true) }
+// HcFactIs reports whether the branch facts dominating in include atom a.
+func HcFactIs(in ssa.Instruction, a Atom) bool { return holds(FactsAtInstr(in), a, true) }
 
-// TermAtom builds the atom `term == 0` / `term != 0` (nil is 0).
-func TermAtom(term string, eq bool) Atom {
+// HcTermAtom builds the atom `term == 0` / `term != 0` (nil is 0).
+func HcTermAtom(term string, eq bool) Atom {
 	k := NE
 	if eq {
 		k = EQ
@@ -833,9 +833,9 @@ func TermAtom(term string, eq bool) Atom {
 	return Atom{k, Lin{Coef: map[string]int64{term: 1}}}
 }
 
-// Sends selects channel sends (plain or as a select case) on the channel
+// HcSends selects channel sends (plain or as a select case) on the channel
 // rendering as term.
-func Sends(term string) Sel {
+func HcSends(term string) Sel {
 	return Sel{"send on " + term, func(p *Prog, fn *ssa.Function) []ssa.Instruction {
 		var out []ssa.Instruction
 		eachInstr(fn, func(in ssa.Instruction) {
@@ -857,5 +857,5 @@ func Sends(term string) Sel {
 	}}
 }
 
-// EdgeFacts returns the atoms that hold when control flows from pred to b.
-func EdgeFacts(pred, b *ssa.BasicBlock) []Atom { return edgeFacts(pred, b) }
+// HcEdgeFacts returns the atoms that hold when control flows from pred to b.
+func HcEdgeFacts(pred, b *ssa.BasicBlock) []Atom { return hcEdgeFacts(pred, b) }
